@@ -22,9 +22,10 @@ EXPLANATION = (
     "R-known-values-kept (every value of the hierarchy is appended to each feature's order; the members of "
     "a level are validated against the cumulated values of all earlier levels); "
     "R-select-nonempty (numpy.select is only called when a value has to be merged at that level)."
+    " Also R-string-form (numeric columns meet the hierarchy through StringDiscretizer's string form: str(int(v)) exactly for integral floats, str(v) otherwise)."
 )
 NOT_DECIDED = "which values end up merged on given data; pandas value_counts/select semantics"
-FLOORS = {"R-append-absent": 4, "R-thresholds": 3, "R-merge-target": 7, "R-unknown-exhaustive": 5, "R-known-values-kept": 3, "R-select-nonempty": 1}
+FLOORS = {"R-append-absent": 4, "R-thresholds": 3, "R-merge-target": 7, "R-unknown-exhaustive": 5, "R-known-values-kept": 3, "R-select-nonempty": 1, "R-string-form": 2}
 
 CLS = "ChainedDiscretizer"
 
@@ -352,6 +353,9 @@ def check(ctx):
     from . import quant
 
     quant.check_select_nonempty(ctx, "R-select-nonempty", select_fn=lambda fi: fi.cls is not None and fi.cls.name == CLS)
+    from . import c04
+
+    c04.rule_string_form(ctx)  # numeric columns are matched with the hierarchy through StringDiscretizer's string form: str(int(v)) for integral floats, str(v) otherwise
 
 
 MUTANTS = [
